@@ -118,9 +118,58 @@ pub fn run(ctx: &Ctx) -> i32 {
         }
     }
     let acc = acc.merge(acc2);
+    // policies at the format's limits (16 members, 16 groups): too many shares for all subsets, so a fixed menu of subsets per policy -
+    // everything, everything but one, first / last minimal quorums in both orders, each minimal quorum less one share, quorum preceded by filler
+    let big: Vec<(usize, Vec<(usize, usize)>)> = vec![
+        (1, vec![(2, 16)]), (1, vec![(16, 16)]), (1, vec![(9, 16)]), (2, vec![(2, 16), (2, 3)]), (2, vec![(2, 16), (1, 1)]), (2, vec![(2, 3), (2, 16)]),
+        (5, vec![(3, 4), (4, 4), (4, 4), (4, 4), (4, 4)]), (16, vec![(1, 1); 16]), (2, vec![(1, 1); 16]), (9, vec![(1, 1); 16]), (3, vec![(2, 16), (2, 16), (2, 16)]),
+    ];
+    let acc3 = big.par_iter().enumerate().with_max_len(1).map(|(pi, (gt, groups))| {
+        let mut acc = Acc::new();
+        let spec = match groups.iter().map(|&(t, n)| SSKRGroupSpec::new(t, n)).collect::<Result<Vec<_>, _>>().and_then(|g| SSKRSpec::new(*gt, g)) { Ok(s) => s, Err(_) => { acc.inc("specs_refused_by_sskr"); return acc } };
+        acc.inc("big_policies");
+        let m = &origs[pi % 3]; let e = bind::build(m, 0);
+        let enc = e.encrypt_subject_opt(&key, Some(bind::nonce0())).unwrap();
+        let want = bind::observe(&e.subject());
+        let mut rng = SeededRandomNumberGenerator::new([pi as u64 + 100, 2, 3, 4]);
+        let shares = match catch(|| enc.sskr_split_using(&spec, &key, &mut rng)) { Ok(Ok(s)) => s, Ok(Err(_)) => { acc.inc("splits_refused"); return acc } Err(p) => { acc.viol(format!("C11|split|panic|{}", p.loc), p.msg.clone(), format!("big{pi}/split"), json!({"groups": groups})); return acc } };
+        let flat: Vec<(usize, &Envelope)> = shares.iter().enumerate().flat_map(|(gi, v)| v.iter().map(move |x| (gi, x))).collect();
+        let total = flat.len();
+        let start: Vec<usize> = { let mut v = vec![0]; for g in groups { v.push(v.last().unwrap() + g.1) } v };
+        let mut menu: Vec<(String, Vec<usize>)> = vec![("all".into(), (0..total).collect()), ("all-reversed".into(), (0..total).rev().collect())];
+        for i in 0..total { menu.push((format!("all-but-{i}"), (0..total).filter(|j| *j != i).collect())) }
+        for last_groups in [false, true] { for last_members in [false, true] {
+            let gsel: Vec<usize> = if last_groups { (groups.len() - gt..groups.len()).collect() } else { (0..*gt).collect() };
+            let mut q = vec![]; for &g in &gsel { let (t, n) = groups[g]; let r: Vec<usize> = if last_members { (n - t..n).collect() } else { (0..t).collect() }; q.extend(r.into_iter().map(|k| start[g] + k)) }
+            let tag = format!("quorum-{}groups-{}members", if last_groups { "last" } else { "first" }, if last_members { "last" } else { "first" });
+            menu.push((tag.clone(), q.clone())); menu.push((format!("{tag}-reversed"), q.iter().rev().cloned().collect()));
+            for k in 0..q.len() { let mut x = q.clone(); x.remove(k); menu.push((format!("{tag}-less-{k}"), x)) }
+            // filler first: t-1 members of every group that is not selected, then the quorum (the quorum's shares come after position 16 where possible)
+            let mut filler = vec![]; for g in 0..groups.len() { if !gsel.contains(&g) { let (t, _) = groups[g]; filler.extend((0..t.saturating_sub(1)).map(|k| start[g] + k)) } }
+            let mut x = filler.clone(); x.extend(q.iter().cloned()); menu.push((format!("{tag}-after-filler"), x));
+            // surplus members of the selected groups first, the deciding member last
+            let mut y: Vec<usize> = vec![]; for &g in &gsel { let (_, n) = groups[g]; y.extend((0..n).map(|k| start[g] + k)) } menu.push((format!("{tag}-all-members-of-selected-groups"), y));
+        } }
+        for (name, idx) in menu {
+            let mut counts = vec![0usize; groups.len()]; for &i in &idx { counts[flat[i].0] += 1 }
+            let sat = satisfied(*gt, groups, &counts);
+            let subset: Vec<&Envelope> = idx.iter().map(|&i| flat[i].1).collect();
+            if subset.is_empty() { continue }
+            acc.inc("joins");
+            let cid = || format!("big{pi}/{name}");
+            let det = || json!({"group_threshold": gt, "groups": groups, "members_present_per_group": counts, "policy_satisfied": sat, "shares_supplied": idx.len()});
+            match catch(|| Envelope::sskr_join(&subset)) {
+                Err(p) => acc.viol(format!("C11|join|panic|{}", p.loc), p.msg.clone(), cid(), det()),
+                Ok(Ok(r)) => { if !sat { acc.viol("C11|quorum-boundary|unsatisfied|returns-envelope", "join succeeded although the subset does not satisfy the policy", cid(), det()) } else if bind::observe(&r) != want { acc.viol("C11|quorum-boundary|satisfied|returns-other", "join returned something else than the original decrypted subject", cid(), det()) } else { acc.inc("joins_recovered"); acc.nontrivial(&("big", pi, name.clone())); } }
+                Ok(Err(_)) => { if sat { acc.viol("C11|quorum-boundary|satisfied|refused", "join failed although the subset satisfies the policy", cid(), det()) } else { acc.inc("joins_refused_as_required") } }
+            }
+        }
+        acc
+    }).reduce(Acc::new, Acc::merge);
+    let acc = acc.merge(acc3);
     let evals = acc.get("joins") + acc.get("mixed_joins");
     let cov = json!({"evaluations": evals,
-        "rule": "every policy (g groups, group threshold, per-group t-of-n) within the bounds x EVERY subset of the generated share envelopes (generated order and reversed) judged by the policy model; plus unions of subsets from two different splits (different and equal identifiers); distinct non-trivial = joins that recovered the original",
+        "rule": "every policy (g groups, group threshold, per-group t-of-n) within the bounds x EVERY subset of the generated share envelopes (generated order and reversed) judged by the policy model; plus unions of subsets from two different splits (different and equal identifiers); plus 11 policies at the limits (16 members, 16 groups) with a fixed menu of subsets (all, all but one, first / last minimal quorums in both orders, each less one share, after filler); distinct non-trivial = joins that recovered the original",
         "exhaustive": true, "bounds": {"groups_max": gmax, "members_max": nmax, "policies": pols.len(), "envelopes": 3}});
     finish(ctx, acc, "exploration", cov, vec!["share generation uses seeded generators through sskr_split_using".into(), "for mixed splits a refusal or the first envelope's original is accepted; which one is not specified".into()])
 }
